@@ -22,7 +22,8 @@ pub fn classify_full(r: &Replay, tmpdir: &str, tag: &str) -> Vec<crate::replay::
     if std::fs::write(&file, serde_json::to_string(r).unwrap()).is_err() {
         return vec![];
     }
-    let exe = std::env::current_exe().unwrap();
+    // the build that found it executes it again
+    let exe = crate::replay::exe_for(&r.build);
     let child = Command::new(exe).arg("classify").arg(&file).env("SIM_CAPTURE_DIR", tmpdir).stdin(Stdio::null()).stdout(Stdio::piped()).stderr(Stdio::piped()).spawn();
     let (out, captured) = match child {
         Err(e) => (Err(e), Vec::new()),
